@@ -327,6 +327,7 @@ func run(c *rig.Ctx) {
 
 	// (b) lock-step on the timing ROMs
 	roms := romrun.Select("instr_timing", "mem_timing", "_timing", "cpu_instrs/individual/0", "halt_bug", "intr_timing", "div_timing")
+	longLife(c)
 	romrun.FollowROMs(c, "roms", roms, romrun.FollowOpts{Props: []string{"C02"}, Verdict: true})
 }
 
